@@ -26,7 +26,8 @@ EXTENDS Integers, Sequences, FiniteSets, TLC, Json
 CONSTANTS MaxLen,
           TwoPaths,    \* TRUE: the timestamp-aware loader is a file-system loader with two search paths (slots 2 and 3)
           NamesUsed,   \* the names the operations range over (a subset of Names: focused configurations)
-          InitAuto     \* auto-reload at the start
+          InitAuto,    \* auto-reload at the start
+          Broken       \* TRUE: a loader may also hold a source that does not parse (version 9); no flag toggles
 VARIABLES content,     \* content[i][n] : version held by loader i / by search path i of the file-system loader (0 = absent)
           mtime,       \* mtime[i][n] : modification time of n in slot i (timestamp-aware slots)
           loads,       \* loads[i][n] : Load calls loader i has seen for n
@@ -46,6 +47,10 @@ RegNames == {"r1", "m1"}
 LoaderNamesOf(i) == IF i = 1 THEN {"l1", "m1"} ELSE IF i = 2 THEN {"l1", "l2", "m1"} ELSE {"l2", "m1"}
 Names == {"r1", "l1", "l2", "m1"}
 Vers == {1, 2}
+BrokenVer == 9
+PutVers == Vers \cup (IF Broken THEN {BrokenVer} ELSE {})
+\* what a render shows of a version: a source that does not parse is an error of its own (-3), neither output nor not-found
+ServedOf(v) == IF v = BrokenVer THEN -3 ELSE v
 NoEntry == [ver |-> 0, from |-> 0, lastMod |-> 0]
 
 Init == /\ content = [i \in Slots |-> [n \in Names |-> 0]]
@@ -85,6 +90,13 @@ Render(n) ==
                     /\ loads' = rd
                     /\ remembered' = [remembered EXCEPT ![n] = 0]
                     /\ hist' = Append(hist, [op |-> "render", n |-> n, obs |-> Observation(0, cache, rd)])
+                    /\ UNCHANGED <<content, mtime, cache, cacheOn, autoReload, clock>>
+               ELSE IF content[w][n] = BrokenVer
+               THEN \* the source the configuration calls for does not parse: that is what the call reports, every time it is
+                    \* read; the cache keeps what it had (the comparison leaves the name's cache entry open until it is served again)
+                    /\ loads' = rd
+                    /\ remembered' = IF w = 1 THEN remembered ELSE [remembered EXCEPT ![n] = w]
+                    /\ hist' = Append(hist, [op |-> "render", n |-> n, obs |-> Observation(-3, cache, rd)])
                     /\ UNCHANGED <<content, mtime, cache, cacheOn, autoReload, clock>>
                ELSE \* P2 / P3a / P5: (re)load from the first loader that has it
                     LET entry == [ver |-> content[w][n], from |-> w, lastMod |-> IF TsAware(w) THEN mtime[w][n] ELSE 0]
@@ -150,9 +162,9 @@ Next ==
     /\ \/ \E n \in NamesUsed : Render(n)
        \/ \E n \in RegNames \cap NamesUsed : \E v \in Vers : Register(n, v)
        \/ \E n \in RegNames \cap NamesUsed : \E old \in BOOLEAN : RegCompiled(n, 1, old)
-       \/ \E i \in Slots : \E n \in NamesUsed : \E v \in Vers : Put(i, n, v)
+       \/ \E i \in Slots : \E n \in NamesUsed : \E v \in PutVers : Put(i, n, v)
        \/ \E i \in Slots : \E n \in NamesUsed : Delete(i, n)
-       \/ \E b \in BOOLEAN : SetCache(b) \/ SetAutoReload(b) \/ SetDevMode(b)
+       \/ (~Broken /\ \E b \in BOOLEAN : SetCache(b) \/ SetAutoReload(b) \/ SetDevMode(b))
 Spec == Init /\ [][Next]_vars
 
 \* ---- the property's sentences over steps ------------------------------------------------------
@@ -161,9 +173,12 @@ IsRender == hist' # hist /\ Last.op = "render"
 TotalLoads(l, n) == l[1][n] + l[2][n]
 P2 == [][IsRender /\ ~cacheOn => TotalLoads(loads', Last.n) > TotalLoads(loads, Last.n)]_vars
 P3unchanged == [][IsRender /\ cacheOn /\ autoReload /\ cache[Last.n].ver # 0 /\ ~Stale(Last.n) => loads' = loads]_vars
-P3changed == [][IsRender /\ cacheOn /\ Stale(Last.n) /\ FirstWith(Last.n) # 0 => Last.obs.served = content[FirstWith(Last.n)][Last.n]]_vars
+P3changed == [][IsRender /\ cacheOn /\ Stale(Last.n) /\ FirstWith(Last.n) # 0 => Last.obs.served = ServedOf(content[FirstWith(Last.n)][Last.n])]_vars
 P4 == [][IsRender /\ cacheOn /\ ~autoReload /\ cache[Last.n].ver # 0 => (Last.obs.served = cache[Last.n].ver /\ loads' = loads)]_vars
-P5 == [][IsRender /\ ~cacheOn /\ content[1][Last.n] # 0 => Last.obs.served = content[1][Last.n]]_vars
+P5 == [][IsRender /\ ~cacheOn /\ content[1][Last.n] # 0 => Last.obs.served = ServedOf(content[1][Last.n])]_vars
+\* a source that does not parse is never papered over with an older one while auto-reload is on
+P3broken == [][IsRender /\ cacheOn /\ autoReload /\ FirstWith(Last.n) # 0 /\ content[FirstWith(Last.n)][Last.n] = BrokenVer
+                 /\ (cache[Last.n].ver = 0 \/ Stale(Last.n)) => Last.obs.served = -3]_vars
 P6 == [][IsRender /\ Last.obs.served = 0 => cache' = cache]_vars
 P1 == [][(hist' # hist /\ Last.op \in {"register", "regcompiled"}) => cache'[Last.n].ver = Last.v]_vars
 TypeOK == \A n \in Names : cache[n].ver # 0 => (cache[n].from = 0 \/ cache[n].from \in Slots)
@@ -171,6 +186,6 @@ TypeOK == \A n \in Names : cache[n].ver # 0 => (cache[n].from = 0 \/ cache[n].fr
 Complete == Len(hist) = MaxLen /\ hist[MaxLen].op = "render"
 OpTags == {hist[i].op : i \in 1..Len(hist)}
 Emit == Complete => PrintT(ToJson([prop |-> "C15", key |-> ToJson([i \in 1..Len(hist) |-> [o \in (DOMAIN hist[i]) \ {"obs"} |-> hist[i][o]]]),
-                                   tags |-> {"op:" \o o : o \in OpTags} \cup (IF TwoPaths THEN {"twopaths", "fsloader"} ELSE {}), ops |-> hist,
+                                   tags |-> {"op:" \o o : o \in OpTags} \cup (IF TwoPaths THEN {"twopaths", "fsloader"} ELSE {}) \cup (IF Broken THEN {"broken-source"} ELSE {}), ops |-> hist,
                                    fs |-> TwoPaths, auto |-> InitAuto]))
 =============================================================================
